@@ -10,6 +10,7 @@ package tagstree
 //verif:pkg pkg/segment/reader/metrics/tagstree
 //verif:load pkg/segment/writer/metrics
 //verif:entry VerifC09RotatedTagsTreeYieldsEveryValue conf=0 replay=no
+//verif:bridge verifC09EncodeTagsTree github.com/siglens/siglens/pkg/segment/writer/metrics.VerifC09EncodeTagsTree
 //verif:bound one metric, one tag key, 1..3 series each carrying one of the string values "a", "bb", "cccccc", "dd" or the number 7 (free choice, so values may be shared); the tree is built with TagTree.AddTagValue, encoded with the writer's encodeTagsTree, written to a file and read back through TagTreeReader.getValueIteratorForMetric / TagValueIterator.next
 //verif:outside several metrics or tag keys in one file, the file locking of initTagsTreeReader (the reader is constructed on the opened file), the matcher evaluation on the values (VerifC09RegexMatcherAnchoring)
 //verif:assume none
@@ -24,6 +25,8 @@ import (
 	"github.com/siglens/siglens/pkg/utils"
 	zz "github.com/siglens/siglens/pkg/zzverif"
 )
+
+func verifC09EncodeTagsTree(tt *wmetrics.TagTree) ([]byte, error) { panic("bridged by the engine") }
 
 func VerifC09RotatedTagsTreeYieldsEveryValue() {
 	vals := []string{"a", "bb", "cccccc", "dd", "7"}
@@ -43,7 +46,7 @@ func VerifC09RotatedTagsTreeYieldsEveryValue() {
 		}
 		want[vals[k]][tsid] = true
 	}
-	buf, err := wmetrics.VerifC09EncodeTagsTree(tt)
+	buf, err := verifC09EncodeTagsTree(tt)
 	zz.Assume(err == nil && len(buf) >= 5)
 	dir, err := os.MkdirTemp("", "veriftt")
 	zz.Assume(err == nil)
